@@ -21,7 +21,7 @@ RULE = (
     "{1..9} u {k*c, k*c+-1} x chunksize {1,2,3,None} x seed {0,1,12345} x attributes {none, weights, redshifts, both; "
     "value i encodes source row i} x workers {1, 2 (virtual pool, all delivery orders)}; history: every sequence of "
     "length <= 3 over {direct call, probe, full pass, abandoned partial pass} before the observed pass, and repeated "
-    "Catalog.from_random with one generator; the same histories with a probe as the observed operation; attribute tables of 1,2,3,7 rows: every row reachable (index range at the rng seam and 300*m real draws); probe: get_probe(s) for s in 1..n x chunksize {1,2,3,None} returns exactly s points, reproducibly; uniformity: the generator's rng replaced by a stub returning an exact "
+    "Catalog.from_random with one generator; the same histories with a probe as the observed operation; explicit reseeding over {0,1,12345}^2 observed directly, through a reader created before, and through its probe; attribute tables of 1,2,3,7 rows: every row reachable (index range at the rng seam and 300*m real draws); probe: get_probe(s) for s in 1..n x chunksize {1,2,3,None} returns exactly s points, reproducibly; uniformity: the generator's rng replaced by a stub returning an exact "
     "regular grid, the points must satisfy ra = lo+u(hi-lo), sin(dec) = sin(lo)+v(sin(hi)-sin(lo)). Oracle: exact "
     "count, every point inside the window, weight and redshift name the same source row, records identical to a "
     "fresh generator with that seed. Non-trivial: size not a multiple of the chunk size, or a non-empty history."
@@ -70,6 +70,11 @@ def cases(tier, seed):
                                     observe="probe"))
     for win, n in itertools.product(WINDOWS, (1, 2, 7, 64)):
         out.append(dict(part="uniform", window=win, n=n))
+    # explicit reseeding: a generator reseeded to s behaves like a fresh generator with seed s - directly, through a
+    # reader created before the reseeding, and through its probe
+    for s_from, s_to in itertools.product((0, 1, 12345), repeat=2):
+        for via in ("direct", "reader-pass", "reader-probe"):
+            out.append(dict(part="reseed", s_from=s_from, s_to=s_to, via=via))
     # attribute rows: with m source rows every row must be reachable (m = 1 included)
     for m in (1, 2, 3, 7):
         out.append(dict(part="rows", m=m))
@@ -231,6 +236,38 @@ def run_history(case):
     return v, len(case["hist"]) > 0
 
 
+def run_reseed(case):
+    from yaw.catalog.readers import RandomReader
+
+    s_from, s_to, via = case["s_from"], case["s_to"], case["via"]
+    gen = make_gen("box", "wz", s_from)
+    fresh = make_gen("box", "wz", s_to)
+    v = []
+    if via == "direct":
+        gen(3)
+        gen.reseed(s_to)
+        got, want = gen(5), fresh(5)
+    else:
+        reader = RandomReader(gen, 5, 2)
+        gen(3)
+        gen.reseed(s_to)
+        if via == "reader-pass":
+            got, want = observed_pass(reader), observed_pass(RandomReader(fresh, 5, 2))
+        else:
+            got, want = reader.get_probe(4), RandomReader(fresh, 5, 2).get_probe(4)
+    if got is None or len(got) != len(want) or not np.array_equal(got, want):
+        v.append(dict(signature=f"C16/reseed/{via}",
+                      what=f"generator created with seed {s_from} and reseeded to {s_to} does not reproduce the points of a "
+                           f"fresh generator with seed {s_to} ({via})"))
+    if via != "direct" and not v:
+        # and it still does afterwards (the reader must not have put another seed back)
+        gen.reseed()
+        if not np.array_equal(gen(5), make_gen("box", "wz", s_to)(5)):
+            v.append(dict(signature=f"C16/reseed/{via}/seed-changed-behind-the-back",
+                          what=f"after use through a reader the generator no longer has the seed {s_to} it was reseeded to"))
+    return v, s_from != s_to
+
+
 def run_rows(case):
     """Joint attribute draws reach every source row: exact at the random-source seam (index range requested from the
     rng) and on the real generator with a fixed seed (300*m draws; a fixed, repeatable computation)."""
@@ -337,7 +374,7 @@ def run_refrom(case):
 
 
 def run_case(case):
-    fn = dict(catalog=run_catalog, history=run_history, uniform=run_uniform, refrom=run_refrom, probe=run_probe, rows=run_rows)[case["part"]]
+    fn = dict(catalog=run_catalog, history=run_history, uniform=run_uniform, refrom=run_refrom, probe=run_probe, rows=run_rows, reseed=run_reseed)[case["part"]]
     viols, nontrivial = fn(case)
     res = dict(nontrivial=bool(nontrivial), key=case)
     if viols:
